@@ -49,6 +49,7 @@ func init() {
 		"vpEvent":        func(fr *frame, a []value) value { fr.m.event(goString(a[0])); return nil },
 		"vpYield":        func(fr *frame, a []value) value { fr.m.yield(); return nil },
 		"vpUF":           vpUF,
+		"vpParam":        vpParam,
 		"vpSymbolic":     func(fr *frame, a []value) value { return true },
 		"vpIsConcrete":   func(fr *frame, a []value) value { return !containsSym(a[0]) },
 	}
@@ -116,6 +117,22 @@ func vpChoose(fr *frame, a []value) value {
 	k := m.choose(n, goString(a[0]))
 	m.inputs = append(m.inputs, inputRec{Name: goString(a[0]), Kind: "choose", Conc: uint64(k)})
 	return uint64(k)
+}
+
+// vpParam(name, default): a harness bound set from the command line (-params a=1,b=2);
+// recorded among the inputs so that native replay uses the same value.
+func vpParam(fr *frame, a []value) value {
+	m := fr.m
+	name := goString(a[0])
+	if v, ok := m.replayNext(name, "param"); ok {
+		return v
+	}
+	v := u64(a[1])
+	if pv, ok := m.E.params[name]; ok {
+		v = uint64(pv)
+	}
+	m.inputs = append(m.inputs, inputRec{Name: name, Kind: "param", Conc: v})
+	return v
 }
 
 func vpAssume(fr *frame, a []value) value {
